@@ -49,10 +49,79 @@ struct Parameters {
     max_subsequent_size: NonZeroUsize,
 }
 
+#[cfg(not(woodpile_verif_hcobs_limits))]
 const PROD_PARAMS: Parameters = Parameters {
     max_initial_size: unsafe { NonZeroUsize::new_unchecked(RADIX - 1) },
     max_subsequent_size: unsafe { NonZeroUsize::new_unchecked((RADIX * RADIX) - 1) },
 };
+
+/// Verification hook: with `--cfg woodpile_verif_hcobs_limits`, the chunk size
+/// limits come from the `WOODPILE_VERIF_HCOBS_LIMITS="initial,subsequent"`
+/// environment variable at compile time (defaulting to the production
+/// values), so that bounded checkers can cross every chunk boundary with
+/// tiny inputs.
+#[cfg(woodpile_verif_hcobs_limits)]
+const PROD_PARAMS: Parameters = {
+    let (initial, subsequent) = verif_hooks::parse_pair(
+        option_env!("WOODPILE_VERIF_HCOBS_LIMITS"),
+        (RADIX - 1, (RADIX * RADIX) - 1),
+    );
+    assert!(initial > 0 && initial < RADIX);
+    assert!(subsequent > 0 && subsequent < RADIX * RADIX);
+    Parameters {
+        max_initial_size: unsafe { NonZeroUsize::new_unchecked(initial) },
+        max_subsequent_size: unsafe { NonZeroUsize::new_unchecked(subsequent) },
+    }
+};
+
+#[cfg(any(woodpile_verif, woodpile_verif_hcobs_limits))]
+#[allow(missing_docs, dead_code)]
+#[doc(hidden)]
+pub mod verif_hooks {
+    /// Parses "a,b" (decimal) at compile time.
+    pub const fn parse_pair(value: Option<&str>, default: (usize, usize)) -> (usize, usize) {
+        let bytes = match value {
+            Some(value) => value.as_bytes(),
+            None => return default,
+        };
+
+        let mut ret = [0usize; 2];
+        let mut idx = 0;
+        let mut i = 0;
+        while i < bytes.len() {
+            let byte = bytes[i];
+            if byte == b',' {
+                idx += 1;
+                assert!(idx < 2);
+            } else {
+                assert!(byte >= b'0' && byte <= b'9');
+                ret[idx] = ret[idx] * 10 + (byte - b'0') as usize;
+            }
+            i += 1;
+        }
+
+        assert!(idx == 1);
+        (ret[0], ret[1])
+    }
+
+    /// The chunk size limits in force (initial, subsequent).
+    pub const fn limits() -> (usize, usize) {
+        (
+            super::PROD_PARAMS.max_initial_size.get(),
+            super::PROD_PARAMS.max_subsequent_size.get(),
+        )
+    }
+
+    /// Runs the encoder's private size-header kernel: backfills `backref`
+    /// in `iovec` with the radix-253 header for `chunk_size`.
+    pub fn encode_header(
+        chunk_size: usize,
+        iovec: &mut owning_iovec::OwningIovec<'_>,
+        backref: owning_iovec::Backref,
+    ) {
+        crate::encoder::verif_encode_header(chunk_size, iovec, backref)
+    }
+}
 
 #[cfg(test)]
 const TEST_PARAMS: Parameters = Parameters {
